@@ -12,7 +12,7 @@ import json
 from vlib import core, opskit
 
 RULE = ("as C10 (random populations x operator sequences of length 1-12 x forced completion orders); every observed population / evaluation result is snapshotted at "
-        "observation time and compared at the end of the sequence, the argument of every application also right after the call; plus mutation operators applied directly to freshly speciated populations with probabilities at which nobody is drawn; distinct = distinct spec; non-trivial = at least two executed operators one of which is a speciation")
+        "observation time and compared at the end of the sequence, the argument of every application also right after the call; plus mutation operators applied directly to freshly speciated populations with probabilities at which nobody is drawn; plus a solver-level family (scripted-operator solvers, tiny real EVQE solvers, base-class solvers around the package's speciation/selection): two or three solves on ONE solver object, one on a fresh solver, garbage collection — the first result is snapshotted when returned and compared after each; distinct = distinct spec; non-trivial = at least two executed operators one of which is a speciation (solver family: at least two completed solves)")
 
 
 def oracle(tr, report):
@@ -43,10 +43,51 @@ def run(ctx):
             ctx.violation("correspondence", f"shared-{kind}", f"a {kind} object is shared between the populations observed at steps {s1} and {s2}; the model allocates it afresh", spec)
     ctx.notes["shared_dict_or_member_list_objects"] = shared
     ctx.notes["observations_compared"] = sum(len(tr.observations) for _, tr in kept)
+    solver_family(ctx)
+
+
+def solver_family(ctx, cases=None):
+    """Solver level: the result of an earlier solve (history list, every evaluation result in it, populations, species maps,
+    best individual, circuit_evaluations, eigenstate, aux values) is snapshotted when it is returned and compared after
+    further solves on the SAME solver object, after a solve on a fresh solver and after garbage collection."""
+    if cases is None:
+        cases = []
+        cdir = core.ROOT / "corpus" / "C11" / "solver"
+        for f in sorted(cdir.glob("*.json")) if cdir.exists() else []:
+            cases.append(json.loads(f.read_text()))
+        cases += opskit.solver_level_cases(ctx.rng, ctx.n(12, 120), ctx.n(3, 30), ctx.n(3, 30))
+    shared, solves, entries = [], 0, 0
+    for case in cases:
+        found = []
+        try:
+            notes = opskit.run_solver_case(case, lambda key, what: found.append((key, what)))
+        except Exception as e:  # noqa: BLE001 - building or driving the solver failed outside the solver's own code paths
+            import traceback
+
+            ctx.violation("oracle", f"solver-harness-{type(e).__name__}", f"driving the two-solve sequence failed: {type(e).__name__}: {e}", dict(solver_case=case), detail=traceback.format_exc()[-1500:])
+            continue
+        for key, what in found:
+            ctx.violation("oracle", key, what, dict(solver_case=case), detail=dict(shared_containers=notes["shared"][:10]))
+        shared += notes["shared"]
+        solves += notes["solves"]
+        entries += notes["history_entries"]
+        ctx.case(dict(solver_case=case), nontrivial=notes["solves"] >= 2, sample=dict(kind=case["kind"], solves=notes["solves"]))
+        ctx.tally(f"solver-family:{case['kind']}")
+        ctx.tally(f"solver-family:solves:{notes['solves']}")
+        for e in notes.get("solve_exceptions", []):
+            ctx.tally("solver-family:solve-raised:" + e.split(":")[1].strip())
+    ctx.notes["solver_family"] = dict(cases=len(cases), solves=solves, history_entries_compared=entries,
+                                      mutable_containers_shared_between_results_of_one_solver=sorted(set(shared))[:20])
 
 
 def replay(ctx, payload):
     spec = payload.get("case") or payload.get("failing_input")
+    if "solver_case" in spec:
+        solver_family(ctx, [spec["solver_case"]])
+        for v in ctx.violations:
+            print(f"{v['kind']}: {v['key']}: {v['what']}")
+        print("impl-vs-property:", "FAILS" if any(v["kind"] == "oracle" for v in ctx.violations) else "ok")
+        return
     spec = {k: v for k, v in spec.items() if k != "failing_step"}
     opskit.drive(ctx, "C11_replay", [spec], opskit.oracle_c11_step, oracle, "check_heap_case", "heap-model-vs-impl")
     for v in ctx.violations:
